@@ -206,3 +206,115 @@ def case_stats(paths):
                     seen.add(hashlib.blake2b(" ".join(inp.split()[1:]).encode(), digest_size=8).digest())
                 if len(raw) < 2 and total % 1013 == 7: raw.append(line.strip()[:600])
     return total, len(seen), samples + raw
+
+
+# ---------------------------------------------------------------------------------------
+# extraction cross-check (DESIGN 3.4): the same sampled cases evaluated by the extracted
+# OCaml model and inside Coq with vm_compute must agree
+
+def sample_cases(paths, k):
+    """evenly spaced sample of complete case lines (with observation) from the case files"""
+    lines = []
+    for p in paths:
+        if not os.path.exists(p): continue
+        with open(p) as f:
+            for line in f:
+                if line.startswith("#") or line.count("|") != 2: continue
+                if not line.split("|")[2].strip(): continue
+                lines.append(line.rstrip("\n"))
+    if not lines: return []
+    step = max(1, len(lines) // k)
+    picked = lines[::step][:k]
+    # keep Coq literals small: skip cases with very long inputs
+    return [l for l in picked if len(l.split("|")[1].split()) <= 400]
+
+def parse_coq_list_of_lists(out):
+    m = re.search(r"=\s*(\[.*\])\s*:\s*list \(list N\)", out, re.S)
+    if not m: return None
+    txt = re.sub(r"%N|\s", "", m.group(1)).replace(";", ",")
+    try:
+        return json.loads(txt)
+    except Exception:
+        return None
+
+def extraction_crosscheck(pid, paths, wdir, k):
+    """returns dict(checked, agree, detail)"""
+    sample = sample_cases(paths, k)
+    res = dict(checked=0, agree=True, detail="")
+    if not sample: return res
+    sfile = os.path.join(wdir, "xcheck.cases")
+    with open(sfile, "w") as f:
+        f.write("\n".join(sample) + "\n")
+    dump = os.path.join(wdir, "xcheck.dump")
+    rc, out = run([os.path.join(DRIVER, "driver"), sfile, dump, "dump"], timeout=600)
+    ocaml = [[int(x) for x in l.split()] for l in open(dump).read().splitlines()]
+    vfile = os.path.join(wdir, "xcheck_%s.v" % pid)
+    with open(vfile, "w") as f:
+        f.write("From TD Require Import Base.Prelude Extract.Dispatch.\nOpen Scope N_scope.\n")
+        f.write("Definition xcases : list (N * list N) := [\n")
+        items = []
+        for l in sample:
+            hd, inp, _ = l.split("|")
+            fam = hd.split()[1]
+            items.append("  (%s, [%s])" % (fam, "; ".join(inp.split())))
+        f.write(";\n".join(items) + "].\n")
+        f.write("Eval vm_compute in (map (fun c => model (fst c) (snd c)) xcases).\n")
+    with Lock("coq"):
+        rc, out = run(["coqc", "-noglob", "-Q", COQ, "TD", vfile], cwd=wdir, timeout=1200)
+    for ext in (".vo", ".vok", ".vos", ".glob"):
+        try: os.remove(vfile[:-2] + ext)
+        except OSError: pass
+    coq = parse_coq_list_of_lists(out) if rc == 0 else None
+    res["checked"] = len(sample)
+    if coq is None:
+        res["agree"] = False; res["detail"] = "coqc failed or output not parsed: " + out[-400:]
+    elif coq != ocaml:
+        res["agree"] = False
+        for i, (a, b) in enumerate(zip(coq, ocaml)):
+            if a != b:
+                res["detail"] = "case %s: vm_compute %s vs extracted %s" % (sample[i][:200], a[:20], b[:20]); break
+        else:
+            res["detail"] = "different number of results"
+    return res
+
+def coqchk_property(pid):
+    """independent re-check of the property's .vo closure; returns (ok, axioms_text)"""
+    with Lock("coq"):
+        rc, out = run(["coqchk", "-silent", "-o", "-Q", ".", "TD", "TD.Properties.%s" % pid], cwd=COQ, timeout=3000)
+    return rc == 0, out[-1500:]
+
+# ---------------------------------------------------------------------------------------
+# anchors (DESIGN 3.5): a hash of the comment- and whitespace-free text of every Rust source
+# file at the state the model was written against; a difference never raises an alarm, it
+# only makes the quick tier run the thorough generators
+
+def rust_norm_hash(path):
+    txt = open(path, errors="replace").read()
+    txt = re.sub(r"//[^\n]*", "", txt)
+    txt = re.sub(r"/\*.*?\*/", "", txt, flags=re.S)
+    txt = re.sub(r"\s+", "", txt)
+    return hashlib.sha256(txt.encode()).hexdigest()[:16]
+
+def anchor_drift(pid):
+    afile = os.path.join(VERIF, "anchors.json")
+    if not os.path.exists(afile): return []
+    anchors = json.load(open(afile))
+    moved = []
+    for f in anchors.get("properties", {}).get(pid, []):
+        path = os.path.join("/repo", f)
+        h = rust_norm_hash(path) if os.path.exists(path) else "missing"
+        if anchors["files"].get(f) != h: moved.append(f)
+    return moved
+
+def outcome_histogram(paths):
+    """how many cases the implementation accepted / rejected (first observation token)"""
+    h = {}
+    for p in paths:
+        if not os.path.exists(p): continue
+        with open(p) as f:
+            for line in f:
+                if line.startswith("#") or line.count("|") != 2: continue
+                obs = line.split("|")[2].split()
+                key = "no-observation" if not obs else ("first_obs_" + (obs[0] if len(obs[0]) < 3 else "other"))
+                h[key] = h.get(key, 0) + 1
+    return h
